@@ -109,6 +109,8 @@ def propagate(data, d, medium_index=None, illum_wavelen=None, cfsp=0,
     if contains_zero:
         d = d_old
         res = xr.concat([data, res], dim='z')
+        # put the slices back in the order the distances were given
+        res = res.isel(z=np.where(d == 0, 0, np.cumsum(d != 0)))
 
     return copy_metadata(data, res)
 
